@@ -33,6 +33,15 @@ Theorem C18_machine_ignores_annotations : forall fuel funs c en g ev,
 Proof. exact exec_erase. Qed.
 Print Assumptions C18_machine_ignores_annotations.
 
+(* a breakpoint statement ("break", _ = "break") is compiled independently of the options, with the compiling Comp
+   (never the nil-able Env.DebugComp), and without an installed debugger it is a no-op of the machine: programs with
+   breakpoints are covered by C18_options_neutral_partial like any other *)
+Theorem C18_breakpoint_option_independent : forall o depth fuel funs en g ev,
+  compile o depth SBreak = CBreak (Some depth) /\
+  exec (S fuel) funs (compile o depth SBreak) en g ev = ROk en g ev.
+Proof. exact breakpoint_option_independent. Qed.
+Print Assumptions C18_breakpoint_option_independent.
+
 (* OptKeepUntyped changes how the final untyped constant is returned, never its value *)
 Theorem C18_keep_untyped_value : forall o1 o2 c, final_value (final_const o1 c) = final_value (final_const o2 c).
 Proof. exact keep_untyped_value. Qed.
